@@ -8,7 +8,7 @@ CHECKS = {
  "C17": dict(
    technique="exhaustive data walk over the bundled JSON registries (own loader) + abstract evaluation of registered algorithms on undefined fields",
    text="Every clause of C17 is decided for every country (126) and every bank entry (29 451) of whatever data the tree bundles, on every run; "
-        "no sampling; every listed (country, bank code) is additionally looked up again through the tree's own BBAN.bank from an IBAN carrying it (R17-found; quick: one entry per country plus every all-zero / all-nine code, thorough: all keys). Static: the JSON files and the checksum package are read as data / source, the library is never imported.",
+        "no sampling; every listed (country, bank code) is additionally looked up again through the tree's own BBAN.bank from an IBAN carrying it (R17-found; quick: one entry per country, every all-zero / all-nine code and a seeded sample of 1 500 keys, thorough: all 22 753 keys). Static: the JSON files and the checksum package are read as data / source, the library is never imported.",
    note="Trusted: the checker's own registry loader (deep later-wins merge, v2 expansion) — C18's rules tie registry.py to it; ISO 3166 list from the installed pycountry database file; "
         "agreement with SWIFT / national sources is not decided.",
    design="3/C17"),
@@ -104,7 +104,7 @@ CHECKS = {
  "C12": dict(
    technique="evaluation of the lookup functions by the abstract evaluator against registry models (synthetic branch-covering registry + bundled data) compared with the statement; writer/reader agreement of index names and key order on the call sites",
    text="candidates_from_bank_code, from_bank_code, the reverse lookups and the IBAN-level bic/bank/name accessors are evaluated on a synthetic registry that exercises every branch of the selection rule and on the bundled registry "
-        "(quick: all kinds of keys via a seeded sample of 210 keys incl. multi-candidate ones and 60 BICs; thorough: all 22 753 keys and 7 769 BICs) and must equal the registry's own lists, the selection rule, invertibility and the None case; falsy keys ('0', '00', '') and keys of other countries are included.",
+        "(quick: all kinds of keys via a seeded sample of about 1 950 keys incl. 600 multi-candidate ones and 600 BICs, evaluated in forked workers; thorough: all 22 753 keys and 7 769 BICs) and must equal the registry's own lists, the selection rule, invertibility and the None case; falsy keys ('0', '00', '') and keys of other countries are included.",
    note="Indexes are built by the checker's builder from the tree's build_index call arguments (build_index itself is validated in C18). Registry contents beyond the two models are covered through branch coverage only.",
    design="3/C12"),
  "C08": dict(
